@@ -603,11 +603,30 @@ def xlsx_doc(sheets):
 SHEET_NAMES = ["Zeta", "Alpha", "Mid"]
 
 
+SHEET_ROWS = {"empty": 0, "data": 2, "one-row": 1, "three-rows": 3, "one-cell": -1, "ragged": -2, "gaps": -3}
+
+
 def _sheet_specs(kinds):
+    """kind -> rows: every row carries a token `cell<sheet>r<row>` (one-cell: a single cell in a single row; ragged: an earlier
+    row reaches further right than the last one; gaps: empty cells / an empty row between cells that carry data) -- every
+    string cell `cell...` is a token that has to be found in the unit of its sheet"""
     out = []
     for i, k in enumerate(kinds):
-        out.append((SHEET_NAMES[i], [] if k == "empty" else [["h", "v"], [f"cell{i}", i]]))
+        n = SHEET_ROWS[k]
+        if n == -1:
+            rows = [[f"cell{i}r0"]]
+        elif n == -2:
+            rows = [[f"cell{i}r0"], [f"cell{i}r1", f"cell{i}s1", f"cell{i}t1", f"cell{i}u1"], [f"cell{i}r2", f"cell{i}s2"]]
+        elif n == -3:
+            rows = [[f"cell{i}r0", None, f"cell{i}t0"], [None, None, None], [None, f"cell{i}s2"]]
+        else:
+            rows = [[f"cell{i}r{r}", r] for r in range(n)]
+        out.append((SHEET_NAMES[i], rows))
     return out
+
+
+def _cell_tokens(sheets):
+    return {c: i + 1 for i, (_s, rows) in enumerate(sheets) for row in rows for c in row if isinstance(c, str) and c.startswith("cell")}
 
 
 def check_sheets(fmt, kinds):
@@ -622,7 +641,7 @@ def check_sheets(fmt, kinds):
     us = list(c.iterate_units())
     obs = [(u.get_metadata().unit_number, u.get_metadata().sheet_name, u.get_text()) for u in us]
     ok = [(n, nm) for n, nm, _t in obs] == [(k, nm) for k, (nm, _r) in enumerate(sheets, start=1)] \
-        and all((f"cell{i}" in t) == bool(rows) for i, ((_n, _nm, t), (_s, rows)) in enumerate(zip(obs, sheets))) \
+        and token_coverage([(n, t) for n, _nm, t in obs], _cell_tokens(sheets), "cell") is None \
         and c.get_full_text() == "\n".join(t for _n, _nm, t in obs).strip()
     if not ok:
         return {"target": f"{fmt}_extractor.py::read_{fmt}", "inputs": {"check": "sheets", "format": fmt, "sheet_kinds": list(kinds), "sheet_names": SHEET_NAMES[:len(kinds)]},
@@ -633,7 +652,7 @@ def check_sheets(fmt, kinds):
 
 def sweep_sheets(fmt):
     for n in range(1, 4):
-        for kinds in itertools.product(["data", "empty"], repeat=n):
+        for kinds in itertools.product(["data", "empty", "one-row", "one-cell", "three-rows", "ragged", "gaps"] if n < 3 else ["data", "empty", "one-row"], repeat=n):
             r = check_sheets(fmt, list(kinds))
             if r:
                 return r
@@ -646,7 +665,7 @@ def ods_doc(sheets):
           'xmlns:xlink="http://www.w3.org/1999/xlink" xmlns:svg="urn:oasis:names:tc:opendocument:xmlns:svg-compatible:1.0"')
     tabs = ""
     for name, rows in sheets:
-        body = "".join("<table:table-row>" + "".join(f'<table:table-cell office:value-type="string"><text:p>{c}</text:p></table:table-cell>' for c in r)
+        body = "".join("<table:table-row>" + "".join(f'<table:table-cell office:value-type="string"><text:p>{c}</text:p></table:table-cell>' if c is not None else "<table:table-cell/>" for c in r)
                        + "</table:table-row>" for r in rows)
         tabs += f'<table:table table:name="{name}">{body}</table:table>'
     buf = io.BytesIO()
@@ -932,7 +951,8 @@ def mbox_doc(bodies, pad="\n\n", eol="\n", header_only=()):
     return out.replace("\n", eol).encode()
 
 
-def check_mbox(bodies, pad="\n\n", eol="\n", header_only=()):
+def check_mbox(bodies, pad="\n\n", eol="\n", header_only=(), loose=False):
+    """loose=True: a body line may come back with one level of '>' quoting removed (mboxrd readers differ); everything else exact"""
     from sharepoint2text.parsing.extractors.mail.mbox_email_extractor import read_mbox_format_mail
     header_only = tuple(header_only)
     data = mbox_doc(bodies, pad, eol, header_only)
@@ -941,17 +961,33 @@ def check_mbox(bodies, pad="\n\n", eol="\n", header_only=()):
     per = [observe(m) for m in res]
     want = [("" if i in header_only else b.replace("\n", eol).strip()) for i, b in enumerate(bodies)]
     ok = subj == [f"m{i}" for i in range(len(bodies))] \
-        and all(len(o) == 1 and o[0][0] == 1 and o[0][1].replace("\r\n", "\n") == w.replace("\r\n", "\n") for o, w in zip(per, want)) \
+        and all(len(o) == 1 and o[0][0] == 1 and _same_body(o[0][1].replace("\r\n", "\n"), w.replace("\r\n", "\n"), loose) for o, w in zip(per, want)) \
         and all(m.get_full_text() == spec_fulltext(o) for m, o in zip(res, per))
     if not ok:
         return {"target": "mbox_email_extractor.py::read_mbox_format_mail",
-                "inputs": {"check": "mbox", "bodies": bodies, "pad": pad, "eol": eol, "header_only": list(header_only), "mbox": data.decode()},
+                "inputs": {"check": "mbox", "bodies": bodies, "pad": pad, "eol": eol, "header_only": list(header_only), "loose": loose, "mbox": data.decode()},
                 "expected": "one EmailContent per `From ` separator line, in mailbox order, each with one unit numbered 1 holding that message's body",
                 "observed": f"{len(res)} message(s): subjects={subj} units={per}", "check": "mbox"}
     return None
 
 
+def _same_body(got, want, loose):
+    if got == want:
+        return True
+    if not loose:
+        return False
+    import re
+    unq = lambda t: re.sub(r"(?m)^>(>*From )", r"\1", t)
+    return unq(got) == unq(want)
+
+
 def sweep_mbox():
+    quoted = [">From bob@x.org Mon Jan  1 00:00:00 2019", "intro\n>From the release notes of 2019\nrest", ">>From a@x.org Tue Jan  2 00:00:00 2024\ntail"]
+    for q in quoted:                              # mboxrd quoting: these lines belong to the body, they never start a message
+        for bodies in ([q], ["hello", q], [q, "bye"]):
+            r = check_mbox(bodies, "\n\n", "\n", (), loose=True)
+            if r:
+                return r
     pool = ["hello", "", "two\nlines"]
     for pad in ("\n\n", "\n"):                 # blank line after every message / only the line end
         for eol in ("\n", "\r\n"):
@@ -983,7 +1019,7 @@ def sweeps_for(target):
     for cls in ("DocContent", "DocxContent", "OdtContent"):
         if f"{cls}." in t or f"[{cls}]" in t:
             out.append(("heading:" + cls, lambda cls=cls: sweep_heading(cls)))
-            out.append(("sections:" + cls, lambda cls=cls: sweep_sections(cls, exclude=EXCLUDE.get(cls, ()))))
+            out.append(("sections:" + cls, lambda cls=cls: sweep_sections(cls, exclude=EXCLUDE.get(cls) or _recorded(cls))))
     if "_join_unit_text" in t:
         out.append(("join", sweep_join))
     if "_build_slides_from_text_blocks" in t:
@@ -1001,13 +1037,15 @@ def sweeps_for(target):
         out.append(("odp_rich", sweep_odp_rich))
     if "epub_extractor" in t:
         out.append(("epub", sweep_epub))
+        out.append(("epub_rich", sweep_epub_rich))
+        out.append(("epub_soup", sweep_epub_soup))
     if "pdf_extractor" in t:
         out.append(("pdf", sweep_pdf))
         out.append(("pdf_text", sweep_pdf_text))
     if "eml_email_extractor" in t or "EmailContent." in t:
         out.append(("mail_parts:eml", lambda: sweep_mail_parts("eml")))
     if "mbox_email_extractor" in t:
-        out.append(("mail_parts:mbox", lambda: sweep_mail_parts("mbox", exclude=EXCLUDE.get("mbox", ()))))
+        out.append(("mail_parts:mbox", lambda: sweep_mail_parts("mbox", exclude=EXCLUDE.get("mbox") or _recorded("mbox"))))
     if "xlsx_extractor" in t:
         out.append(("xlsx", lambda: sweep_sheets("xlsx")))
     if "ods_extractor" in t:
@@ -1029,7 +1067,7 @@ def all_sweeps():
     out += [("join", sweep_join), ("ppt_build", sweep_ppt_build), ("ppt_parse", sweep_ppt_parse), ("ppt_fixture", check_ppt_fixture),
             ("rtf", sweep_rtf), ("pptx", sweep_pptx), ("odp", sweep_odp), ("epub", sweep_epub), ("pdf", sweep_pdf), ("mbox", sweep_mbox),
             ("xlsx", lambda: sweep_sheets("xlsx")), ("ods", lambda: sweep_sheets("ods")),
-            ("odp_rich", sweep_odp_rich), ("pptx_rich", sweep_pptx_rich), ("pdf_text", sweep_pdf_text), ("epub_rich", sweep_epub_rich),
+            ("odp_rich", sweep_odp_rich), ("pptx_rich", sweep_pptx_rich), ("pdf_text", sweep_pdf_text), ("epub_rich", sweep_epub_rich), ("epub_soup", sweep_epub_soup),
             ("ppt_tokens", sweep_ppt_tokens), ("flowing:txt", lambda: sweep_flowing("txt")), ("flowing:html", lambda: sweep_flowing("html")),
             ("mail_parts:eml", lambda: sweep_mail_parts("eml")), ("mail_parts:mbox", lambda: sweep_mail_parts("mbox", exclude=_recorded("mbox")))]
     return out
@@ -1079,6 +1117,47 @@ def check_epub_rich(chapter_shapes):
     if why:
         return {"target": "epub_extractor.py::read_epub", "inputs": {"check": "epub_rich", "blocks_per_chapter": chapter_shapes},
                 "expected": "one unit per chapter; every block text exactly once, in the unit of its chapter", "observed": f"{why}; units={obs!r}", "check": "epub_rich"}
+    return None
+
+
+EPUB_SOUP = {"object": "<p>{t}</p><object data='x'>", "noscript": "<p>{t}</p><noscript>", "iframe": "<p>{t}</p><iframe src='x'>",
+             "td": "<p>{t}</p><table><tr><td>cell", "title": "<p>{t}</p><title>late", "script": "<p>{t}</p><script>var a = 1;", "style": "<p>{t}</p><style>p {{}}"}
+
+
+def check_epub_soup(kind, n_after=2):
+    """chapter 1 ends inside an element that is never closed; the text of the FOLLOWING chapters must still be in their units"""
+    from sharepoint2text.parsing.extractors.epub_extractor import read_epub
+    bodies = [EPUB_SOUP[kind].format(t="tok0")] + [f"<p>tok{i}</p>" for i in range(1, n_after + 1)]
+    buf = io.BytesIO()
+    with zipfile.ZipFile(buf, "w") as z:
+        z.writestr("mimetype", "application/epub+zip")
+        z.writestr("META-INF/container.xml", '<?xml version="1.0"?><container version="1.0" xmlns="urn:oasis:names:tc:opendocument:xmlns:container">'
+                                             '<rootfiles><rootfile full-path="OEBPS/content.opf" media-type="application/oebps-package+xml"/></rootfiles></container>')
+        items = "".join(f'<item id="c{i}" href="c{i}.xhtml" media-type="application/xhtml+xml"/>' for i in range(len(bodies)))
+        refs = "".join(f'<itemref idref="c{i}"/>' for i in range(len(bodies)))
+        z.writestr("OEBPS/content.opf", '<?xml version="1.0"?><package xmlns="http://www.idpf.org/2007/opf" version="3.0" unique-identifier="id">'
+                                        '<metadata xmlns:dc="http://purl.org/dc/elements/1.1/"><dc:title>T</dc:title><dc:identifier id="id">x</dc:identifier></metadata>'
+                                        f'<manifest>{items}</manifest><spine>{refs}</spine></package>')
+        for i, b in enumerate(bodies):
+            z.writestr(f"OEBPS/c{i}.xhtml", f'<html><head></head><body>{b}</body></html>' if i == 0 else
+                       f'<?xml version="1.0"?><html xmlns="http://www.w3.org/1999/xhtml"><head><title>c{i}</title></head><body>{b}</body></html>')
+    c = next(read_epub(io.BytesIO(buf.getvalue())))
+    obs = observe(c)
+    want = {f"tok{i}": i + 1 for i in range(1, n_after + 1)}        # (what a reader makes of the broken chapter itself is not judged)
+    why = None if [n for n, _t in obs] == list(range(1, len(bodies) + 1)) else f"unit numbers {[n for n, _t in obs]}"
+    why = why or token_coverage(obs, want, "paragraph of a later chapter")
+    if why:
+        return {"target": "epub_extractor.py::read_epub", "inputs": {"check": "epub_soup", "unclosed": kind, "chapters_after": n_after},
+                "expected": "the chapters after a malformed content document are units of their own holding their own text", "observed": f"{why}; units={obs!r}",
+                "check": "epub_soup"}
+    return None
+
+
+def sweep_epub_soup():
+    for kind in EPUB_SOUP:
+        r = check_epub_soup(kind)
+        if r:
+            return r
     return None
 
 
@@ -1150,14 +1229,14 @@ DOCUMENT_SCOPES = {
     "pdf": lambda: sweep_pdf() or sweep_pdf_text(),
     "pptx": lambda: sweep_pptx() or sweep_pptx_rich(),
     "odp": lambda: sweep_odp() or sweep_odp_rich(),
-    "epub": lambda: sweep_epub() or sweep_epub_rich(),
+    "epub": lambda: sweep_epub() or sweep_epub_rich() or sweep_epub_soup(),
     "txt": lambda: sweep_flowing("txt"),
     "html": lambda: sweep_flowing("html"),
     "rtf": lambda: sweep_rtf(),
     "xlsx": lambda: sweep_sheets("xlsx"),
     "ods": lambda: sweep_sheets("ods"),
     "eml": lambda: sweep_mail_parts("eml", exclude=EXCLUDE.get("eml", ())),
-    "mbox": lambda: sweep_mbox() or sweep_mail_parts("mbox", exclude=EXCLUDE.get("mbox", ())),
+    "mbox": lambda: sweep_mbox() or sweep_mail_parts("mbox", exclude=EXCLUDE.get("mbox") or _recorded("mbox")),
     "ppt": lambda: sweep_ppt_parse() or sweep_ppt_tokens() or check_ppt_fixture(),
 }
 
@@ -1212,6 +1291,8 @@ def rerun(stored):
         r = check_single(inp["class"], inp["text"], inp.get("html", ""))
     elif chk == "join":
         r = check_join(inp["unit_texts"])
+    elif chk == "epub_soup":
+        r = check_epub_soup(inp["unclosed"], inp.get("chapters_after", 2))
     elif chk == "epub_rich":
         r = check_epub_rich(inp["blocks_per_chapter"])
     elif chk == "ppt_tokens":
@@ -1249,7 +1330,7 @@ def rerun(stored):
     elif chk == "pdf":
         r = check_pdf(inp["blank_pages"])
     elif chk == "mbox":
-        r = check_mbox(inp["bodies"], inp.get("pad", "\n\n"), inp.get("eol", "\n"), inp.get("header_only", ()))
+        r = check_mbox(inp["bodies"], inp.get("pad", "\n\n"), inp.get("eol", "\n"), inp.get("header_only", ()), inp.get("loose", False))
     if r:
         r["reproduced"] = True
         return r
